@@ -136,13 +136,24 @@ def _is_conc_elem(e):
 
 
 class SSeq(object):
-    """bytes or str with symbolic parts.  kind in {'bytes','str'}."""
+    """bytes or str with symbolic parts.  kind in {'bytes','str'}.
+    chunks: ('u', [int|IntTerm, ...])  explicit elements
+            ('s', SeqTerm, (lo, hi))   symbolic chunk; every element lies in lo..hi
+                                       (a refinement carried instead of a quantifier)"""
     __slots__ = ("kind", "chunks", "taint")
 
-    def __init__(self, kind, chunks, taint=frozenset()):
+    def __init__(self, kind, chunks, taint=frozenset(), bound=None):
         self.kind = kind
-        self.chunks = _norm(chunks)
+        dflt = bound or ((0, 255) if kind == 'bytes' else (0, 0x10FFFF))
+        self.chunks = _norm([c if c[0] == 'u' or len(c) > 2 else ('s', c[1], dflt) for c in chunks])
         self.taint = taint
+
+    @property
+    def bound(self):
+        bs = [c[2] for c in self.chunks if c[0] == 's']
+        if not bs:
+            return (0, 255) if self.kind == 'bytes' else (0, 0x10FFFF)
+        return (min(b[0] for b in bs), max(b[1] for b in bs))
 
     def __repr__(self):
         return "SSeq(%s,%s)" % (self.kind, self.chunks)
